@@ -114,15 +114,15 @@ func c15InBidi(p protocol.Perspective, lim, dq, dt int) func(bool) *c15Cfg {
 }
 
 // out: locally opened streams of both types against the peer's MAX_STREAMS.
-func c15Out(p protocol.Perspective) func(bool) *c15Cfg {
+func c15Out(p protocol.Perspective, tp [2]int, ms [2][]int, dq, dt int) func(bool) *c15Cfg {
 	return func(th bool) *c15Cfg {
-		cfg := &c15Cfg{pers: p, lim: [2]int{2, 2}, app: true, tparams: true, tp: [2]int{1, 2}, closeErr: true, depth: c15Pick(th, 6, 7)}
+		cfg := &c15Cfg{pers: p, lim: [2]int{2, 2}, app: true, tparams: true, tp: tp, closeErr: true, depth: c15Pick(th, dq, dt)}
 		cfg.frameMax[2], cfg.frameMax[3] = 3, 3
 		cfg.frameKinds[2] = []int{c15KFin, c15KReset, c15KStop, c15KMaxData}
 		cfg.frameKinds[3] = []int{c15KStream, c15KReset, c15KStop, c15KMaxData}
-		cfg.maxStreams = [2][]int{{1, 2, 3}, {1, 2, 3}}
-		if !th {
-			cfg.maxStreams = [2][]int{{1, 2}, {2, 3}}
+		cfg.maxStreams = ms
+		if th {
+			cfg.maxStreams = [2][]int{{1, 2, 3}, {1, 2, 3}}
 		}
 		cfg.open = [2]bool{true, true}
 		return cfg
@@ -148,14 +148,13 @@ func c15Direct(p protocol.Perspective, t, lim int) func(bool) *c15Cfg {
 }
 
 // mixed: everything together, including 0-RTT rejection and CloseWithError.
-func c15Mixed(p protocol.Perspective) func(bool) *c15Cfg {
+func c15Mixed(p protocol.Perspective, kinds []int, dq, dt int) func(bool) *c15Cfg {
 	return func(th bool) *c15Cfg {
-		cfg := &c15Cfg{pers: p, lim: [2]int{2, 2}, app: true, reset0rtt: true, closeErr: true, depth: c15Pick(th, 5, 6)}
+		cfg := &c15Cfg{pers: p, lim: [2]int{2, 2}, app: true, reset0rtt: true, closeErr: true, depth: c15Pick(th, dq, dt)}
 		cfg.frameMax = [4]int{3, 3, 2, 2}
-		cfg.frameKinds[0] = []int{c15KFin, c15KStop}
-		cfg.frameKinds[1] = []int{c15KFin, c15KStop}
-		cfg.frameKinds[2] = []int{c15KFin, c15KStop}
-		cfg.frameKinds[3] = []int{c15KFin, c15KStop}
+		for c := 0; c < 4; c++ {
+			cfg.frameKinds[c] = kinds
+		}
 		cfg.maxStreams = [2][]int{{1}, {1}}
 		cfg.open = [2]bool{true, true}
 		cfg.accept = [2]bool{true, true}
@@ -170,15 +169,15 @@ func TestVerifC15(t *testing.T) {
 		c15Part("direct-bidi-cli-l3", c15Direct(cli, 0, 3)),
 		c15Part("direct-uni-srv-l3", c15Direct(srv, 1, 3)),
 		c15Part("direct-uni-cli-l2", c15Direct(cli, 1, 2)),
-		c15Part("in-uni-srv-l2", c15InUni(srv, 2, 9, 11)),
-		c15Part("in-uni-cli-l3", c15InUni(cli, 3, 7, 10)),
-		c15Part("in-bidi-srv-l3", c15InBidi(srv, 3, 6, 8)),
-		c15Part("in-bidi-cli-l2", c15InBidi(cli, 2, 7, 9)),
-		c15Part("out-srv", c15Out(srv)),
-		c15Part("out-cli", c15Out(cli)),
-		c15Part("mixed-srv", c15Mixed(srv)),
-		c15Part("mixed-cli", c15Mixed(cli)),
 		c15SyncPart("sync-bidi-cli", c15Sync(cli, 0), t),
 		c15SyncPart("sync-uni-srv", c15Sync(srv, 1), t),
+		c15Part("out-srv", c15Out(srv, [2]int{1, 2}, [2][]int{{1, 2}, {2, 3}}, 6, 7)),
+		c15Part("out-cli", c15Out(cli, [2]int{2, 1}, [2][]int{{2, 3}, {1, 2}}, 5, 7)),
+		c15Part("in-uni-srv-l2", c15InUni(srv, 2, 8, 11)),
+		c15Part("in-uni-cli-l3", c15InUni(cli, 3, 6, 9)),
+		c15Part("in-bidi-cli-l2", c15InBidi(cli, 2, 6, 9)),
+		c15Part("in-bidi-srv-l3", c15InBidi(srv, 3, 5, 8)),
+		c15Part("mixed-srv", c15Mixed(srv, []int{c15KFin, c15KStop}, 5, 6)),
+		c15Part("mixed-cli", c15Mixed(cli, []int{c15KReset, c15KMaxData}, 5, 6)),
 	}, func(msg string) { t.Fatal(msg) })
 }
